@@ -676,6 +676,11 @@ func runSched(w *Workload) *RunReport {
 				if sameOutcome(got, ref) {
 					continue
 				}
+				if ref.Kind == "stepcap" {
+					// the reference ran out of its step budget (with goroutines started by the
+					// library every goroutine's steps count against it): nothing to compare with
+					continue
+				}
 				op := w.Clients[ci][oi]
 				class := "mismatch"
 				if got.Kind == "stepcap" {
